@@ -9,6 +9,11 @@ Structural clauses decided (cardillo/solver/statics.py):
  R3 same evaluation point   every System evaluation in residual and Jacobian uses the same (t, q) pair (and u = u0 = 0)
  R4 loud early stop         shared with C21 (flag walker): Newton's truncated return warns with the load step and drops the
                             failed step; Riks asserts success
+ R6 every returned load step was solved
+                            (index-interval rule on Newton.solve) the load-step loop runs over range(0, self.nt) with
+                            self.nt = len(self.load_steps) = number of rows of self.x; row i is written from the fsolve result of
+                            load level load_steps[i]; every returned slice starts at row 0 and ends at i (early stop, failed step
+                            dropped) or i + 1: returned index interval is contained in the solved one
  R5 stored-row isolation    (K11, sa/alias.py) no returned point shares memory with a buffer that is modified in place after the
                             point was stored: "every point returned" is the point that was solved for
 """
@@ -37,6 +42,8 @@ def run(ctx):
     rep.rule("C23.R4", "loud early stop (C21 engine)", 2)
     rep.rule("C23.R5", "stored points are not modified after they were stored (may-alias analysis)", 1)
     alias.report(rep, "C23.R5", ctx.repo, [(ST, "Newton"), (ST, "Riks")])
+    rep.rule("C23.R6", "every returned Newton load step has been solved at its own load level (index intervals)", 12)
+    newton_rows(ctx)
     for cname, rname, jname in (("Newton", "fun", "jac"), ("Riks", "R", "J")):
         cls = ctx.repo.get(ST, cname)
         rf = ctx.repo.get(ST, f"{cname}.{rname}")
@@ -134,6 +141,105 @@ def run(ctx):
                 rep.ok("C23.R4", C, f"flag `{flag}`: every escape with a false flag is loud ({len(w.events)} events)")
 
 
+def _resolve_ranges(fn, expr, depth=0):
+    """range(...) calls an iterable expression may denote (through local names and tqdm wrappers)."""
+    if depth > 4:
+        return None
+    if isinstance(expr, ast.Call):
+        d = dotted(expr.func)
+        if d == "range":
+            return [expr]
+        if d in ("tqdm", "enumerate") and expr.args:
+            return _resolve_ranges(fn, expr.args[0], depth + 1)
+        return None
+    if isinstance(expr, ast.Name):
+        out = []
+        for n in ast.walk(fn):
+            if isinstance(n, ast.Assign) and any(isinstance(t, ast.Name) and t.id == expr.id for t in n.targets):
+                if isinstance(n.value, ast.Call) and dotted(n.value.func) == "tqdm" and n.value.args and isinstance(n.value.args[0], ast.Name) \
+                        and n.value.args[0].id == expr.id:
+                    continue  # pbar = tqdm(pbar): same underlying iterable
+                r = _resolve_ranges(fn, n.value, depth + 1)
+                if r is None:
+                    return None
+                out += r
+        return out or None
+    return None
+
+
+def newton_rows(ctx):
+    rep = ctx.rep
+    fn = ctx.repo.get(ST, "Newton.solve")
+    init = ctx.repo.get(ST, "Newton.__init__")
+    C = f"{ST}:Newton.solve"
+    loops = [n for n in ast.walk(fn) if isinstance(n, ast.For)
+             and any(isinstance(c, ast.Call) and dotted(c.func) == "fsolve" for c in ast.walk(n))]
+    if len(loops) != 1 or not isinstance(loops[0].target, ast.Name):
+        raise AnalysisError(f"{C}: the load-step loop around fsolve was not found")
+    loop = loops[0]
+    var = loop.target.id
+    # -- a. the loop covers rows 0 .. nt-1
+    rngs = _resolve_ranges(fn, loop.iter)
+    if not rngs:
+        rep.bad("C23.R6", C, loop.iter, "the load-step loop does not iterate over a range(...) the analysis can bound: which load steps are solved is unknown", f"{ST}:{loop.lineno}")
+    for r in rngs or []:
+        a = r.args
+        start = ast.Constant(0) if len(a) == 1 else a[0]
+        stop = a[0] if len(a) == 1 else a[1]
+        step_ok = len(a) < 3 or (isinstance(a[2], ast.Constant) and a[2].value == 1)
+        if not (isinstance(start, ast.Constant) and start.value == 0):
+            rep.bad("C23.R6", C, r, f"the load-step loop starts at `{norm_src(start)}`, but the returned rows start at row 0: the first returned load step(s) are never solved "
+                    "(they are the raw initial guess, not an equilibrium, and step_callback is not applied to them)", f"{ST}:{r.lineno}")
+        elif norm_src(stop) not in ("self.nt", "len(self.load_steps)") or not step_ok:
+            rep.bad("C23.R6", C, r, f"the load-step loop runs to `{norm_src(stop)}` (step 1 expected up to self.nt): returned rows beyond it are not solved", f"{ST}:{r.lineno}")
+        else:
+            rep.ok("C23.R6", C, f"load-step loop: {norm_src(r)} covers rows 0 .. self.nt - 1")
+    nt_ok = any(isinstance(n, ast.Assign) and norm_src(n.targets[0]) == "self.nt" and norm_src(n.value) == "len(self.load_steps)" for n in ast.walk(init))
+    x_ok = any(isinstance(n, ast.Assign) and norm_src(n.targets[0]) == "self.x" and isinstance(n.value, ast.Call) and n.value.args
+               and isinstance(n.value.args[0], ast.Tuple) and norm_src(n.value.args[0].elts[0]) == "self.nt" for n in ast.walk(init))
+    if nt_ok and x_ok:
+        rep.ok("C23.R6", f"{ST}:Newton.__init__", "self.nt = len(self.load_steps) and self.x has self.nt rows")
+    else:
+        rep.bad("C23.R6", f"{ST}:Newton.__init__", "self.nt / self.x", "self.nt is not len(self.load_steps) or self.x does not have self.nt rows: loop range, load levels and stored rows no longer "
+                "index the same set", f"{ST}:{init.lineno}")
+    # -- b. row i is the fsolve result at load level load_steps[i]
+    solves = [n for n in loop.body if isinstance(n, ast.Assign) and isinstance(n.value, ast.Call) and dotted(n.value.func) == "fsolve"]
+    if len(solves) != 1:
+        raise AnalysisError(f"{C}: expected one fsolve call at the top level of the load-step loop")
+    sv = solves[0]
+    solname = norm_src(sv.targets[0])
+    x0 = norm_src(sv.value.args[1]) if len(sv.value.args) > 1 else ""
+    fa = {k.arg: norm_src(k.value) for k in sv.value.keywords}
+    lvl = f"(self.load_steps[{var}],)"
+    if x0 == f"self.x[{var}]" and fa.get("fun_args") == lvl and fa.get("jac_args", lvl) == lvl:
+        rep.ok("C23.R6", C, f"row {var} is solved at load level self.load_steps[{var}] starting from self.x[{var}]")
+    else:
+        rep.bad("C23.R6", C, sv, f"the solve of row `{var}` does not use self.x[{var}] with load level self.load_steps[{var}] for residual and Jacobian alike "
+                f"(initial guess {x0}, fun_args {fa.get('fun_args')}, jac_args {fa.get('jac_args')})", f"{ST}:{sv.lineno}")
+    wr = [n for n in loop.body if isinstance(n, ast.Assign) and norm_src(n.targets[0]) == f"self.x[{var}]" and norm_src(n.value) == f"{solname}.x"]
+    if wr and loop.body.index(wr[0]) > loop.body.index(sv):
+        rep.ok("C23.R6", C, f"self.x[{var}] = {solname}.x on every iteration (top level of the loop, after the solve)")
+    else:
+        rep.bad("C23.R6", C, sv, f"the result of the solve is not written to self.x[{var}] on every iteration", f"{ST}:{sv.lineno}")
+    # -- c. returned slices
+    for ret in [n for n in ast.walk(fn) if isinstance(n, ast.Return) and isinstance(n.value, ast.Call) and dotted(n.value.func) == "Solution"]:
+        in_loop = any(ret is w for w in ast.walk(loop))
+        want_hi = var if in_loop else f"{var} + 1"
+        for sub in [w for w in ast.walk(ret) if isinstance(w, ast.Subscript) and norm_src(w.value) in ("self.x", "self.load_steps")]:
+            sl = sub.slice.elts[0] if isinstance(sub.slice, ast.Tuple) else sub.slice
+            if not isinstance(sl, ast.Slice):
+                rep.bad("C23.R6", C, sub, "returned rows are not selected by a slice", f"{ST}:{sub.lineno}")
+                continue
+            lo = None if sl.lower is None else norm_src(sl.lower)
+            hi = None if sl.upper is None else norm_src(sl.upper)
+            if lo in (None, "0") and hi == want_hi and sl.step is None:
+                rep.ok("C23.R6", C, f"{'early' if in_loop else 'final'} return: {norm_src(sub)} = rows 0 .. {want_hi} - 1, all solved"
+                       + ("" if in_loop else " (and the failed row is excluded in the early return)"))
+            else:
+                rep.bad("C23.R6", C, sub, f"the {'early' if in_loop else 'final'} return selects rows [{lo or 0}:{hi}] but the solved rows are [0:{want_hi}]"
+                        + (" (the early return must drop the unconverged row)" if in_loop else ""), f"{ST}:{sub.lineno}")
+
+
 MUTANTS = [
     dict(id="c23-m1", canary=True, what="Riks.R lacks the contact forces (original defect)", file=ST,
          old="        R[: self.split_residual[0]] = (\n            self.h + self.W_c @ la_c + self.W_g @ la_g + self.W_N @ la_N\n        )",
@@ -156,7 +262,19 @@ MUTANTS += [
     dict(id="c23-r5-2", what="Riks: predictor written through a slice of the stored buffer", file=ST,
          old="                xk1 = xk1 + dx\n", new="                xk1[:] = xk1 + dx\n", expect="C23.R5"),
 ]
+MUTANTS += [
+    dict(id="c23-r6-seed", canary=True, what="[seeded by sub-agent] Newton.solve skips load step 0 (loop from 1, warm start moved to the top)", file=ST,
+         edits=[(ST, "        pbar = range(0, self.nt)\n", "        pbar = range(1, self.nt)\n"),
+                (ST, "        for i in pbar:\n            sol = fsolve(\n                self.fun,\n                self.x[i],", "        for i in pbar:\n            self.x[i] = self.x[i - 1]\n            sol = fsolve(\n                self.fun,\n                self.x[i],")],
+         expect="C23.R6"),
+    dict(id="c23-r6-2", what="Newton.solve solves row i at the previous load level", file=ST,
+         old="                fun_args=(self.load_steps[i],),\n                jac_args=(self.load_steps[i],),", new="                fun_args=(self.load_steps[i - 1],),\n                jac_args=(self.load_steps[i - 1],),", expect="C23.R6"),
+    dict(id="c23-r6-3", what="Newton.solve's early return includes the failed load step again", file=ST,
+         old="                    q=self.x[:i, : self.split_x[0]],", new="                    q=self.x[: i + 1, : self.split_x[0]],", expect=["C23.R6", "C23.R4"]),
+]
 NEUTRAL = [
+    dict(id="c23-n2", what="Newton.solve: range(self.nt) instead of range(0, self.nt)", file=ST,
+         old="        pbar = range(0, self.nt)\n", new="        pbar = range(self.nt)\n"),
     dict(id="c23-n1", canary=True, what="Riks stores copies and updates the predictor in place", file=ST,
          old="            q.append(q_)\n            la_c.append(la_c_)\n            la_g.append(la_g_)\n            la_N.append(la_N_)\n",
          new="            q.append(q_.copy())\n            la_c.append(la_c_.copy())\n            la_g.append(la_g_.copy())\n            la_N.append(la_N_.copy())\n"),
